@@ -356,13 +356,27 @@ def r_index(F, res):
                 tags.add(o.rv["variant"])
         if not tags and torg and all(o.kind == "arg" for o in torg):
             return None      # the tag is a parameter: judged where the builder is called
-        flds = e9.slice_adt_fields(F, f, rv["ops"][rv["fields"].index("index")], "TransactionBody")
+        seen_calls = set()
+        flds = e9.slice_adt_fields(F, f, rv["ops"][rv["fields"].index("index")], "TransactionBody", calls_out=seen_calls)
         if len(tags) != 1:
             res.add([finding("R-INDEX", key, w, "the redeemer's tag is not a single constant (%s)" % sorted(tags))])
             return True
         tag = next(iter(tags))
         want = TAG_FIELD.get(tag)
-        if want in flds:
+        # ... and the item it looks for comes from the very block that carries the redeemer: the slices of `index` and of `data`
+        # read fields of the same template item (an Input, a Mint block, a withdrawal directive)
+        ITEMS = ("::v1beta0::Input", "::v1beta0::Mint", "::v1beta0::AdHocDirective")
+        data_op = rv["ops"][rv["fields"].index("data")] if "data" in rv["fields"] else None
+        if data_op is not None and want in flds:
+            d_items = {a for a in ITEMS if e9.slice_adt_fields(F, f, data_op, a)}
+            i_items = {a for a in ITEMS if e9.slice_adt_fields(F, f, rv["ops"][rv["fields"].index("index")], a)}
+            if d_items and not (d_items & i_items):
+                res.add([finding("R-INDEX", key, w, "the redeemer's data comes from a block of the template, but the item its index is looked up for does not come from that block (no field of the block is read on the way to the index - e.g. the n-th body input is paired with the n-th block by position): as soon as a block resolves to several UTxOs, or to none, the redeemer is attached to another item")])
+                return True
+        SEARCH = {"position", "rposition", "binary_search", "binary_search_by", "binary_search_by_key", "partition_point", "find", "find_map", "range"}
+        if want in flds and not (seen_calls & SEARCH):
+            res.add([finding("R-INDEX", key, w, "a redeemer tagged %s takes a number derived from compiled_body.%s as its index without *searching* that collection for its own item (no position / binary search on the way: an enumeration counter or the position of another list is used): the redeemer is attached to whatever sits at that place" % (tag, want))])
+        elif want in flds:
             res.add([ok("R-INDEX", key, w, "tag %s; the index is computed from compiled_body.%s" % (tag, want))])
         elif flds:
             res.add([finding("R-INDEX", key, w, "a redeemer tagged %s takes its index from compiled_body.%s instead of compiled_body.%s" % (tag, "/".join(sorted(flds)), want))])
